@@ -19,6 +19,10 @@ EmitTransition == PrintT(ToJson(hist'))
 
 \* one history per distinct state (the VIEW contains the last operation and its outcome, so this
 \* is one shortest history per distinct (state, last operation, outcome))
+\* exhaustive verification runs use several workers: TLC's parallel breadth-first search does not reach a
+\* state first through its SHORTEST history, so with a history-length constraint the history length must be
+\* part of the state identity (otherwise which successors are cut off depends on the schedule)
+DepthView == <<NoHistView, Len(hist)>>
 EmitState == (Len(hist) <= MaxLen) => PrintT(ToJson(hist))
 
 \* Deep exploration behind a fixed prefix that leaves the object re-loaded from disk with a
